@@ -73,7 +73,8 @@ try:
                     coqcopy = wt + "_coq"
                     if not os.path.isdir(coqcopy):
                         sh("rsync -a --exclude cases /verif/coq/ %s/" % coqcopy)
-                    env = "PCFG_REPO=%s PCFG_COQ=%s " % (wt, coqcopy)
+                    os.makedirs(wt + "_out", exist_ok=True)
+                    env = "PCFG_REPO=%s PCFG_COQ=%s PCFG_OUT=%s " % (wt, coqcopy, wt + "_out")
                 rc, out = sh("%s./check %s --tier %s" % (env, c, tier), "/verif", 3600)
                 lines = [l for l in out.split("\n") if l.startswith("VIOLATION") or l.startswith("KNOWN") or " obligations" in l]
                 res["checks"][c] = {"rc": rc, "lines": [l[:300] for l in lines][:8]}
@@ -84,5 +85,6 @@ finally:
     sh("git -C /repo worktree remove --force %s" % wt)
     shutil.rmtree(wt, ignore_errors=True)
     shutil.rmtree(wt + "_coq", ignore_errors=True)
+    shutil.rmtree(wt + "_out", ignore_errors=True)
 json.dump(res, open(os.path.join(d, "result_%s.json" % k), "w"), indent=1)
 print(json.dumps(res, indent=1)[:3000])
